@@ -10,7 +10,7 @@
    Abs/CfgExecSample.v. *)
 From Coq Require Import List NArith Lia.
 From Verif Require Import Abs.CfgBase Abs.CfgRaft Abs.CfgRun Abs.CfgExec Abs.CfgExecThms
-  Abs.CfgExecSample.
+  Abs.CfgExecSample Abs.CfgClient Abs.CfgExecClient.
 Import ListNotations.
 Open Scope N_scope.
 
@@ -138,3 +138,32 @@ Example cfg_sample_install_behind_accepted :
   explain_all [1; 2; 3] sample_cfg_install_behind = [].
 Proof. exact sample_cfg_install_behind_accepted. Qed.
 Print Assumptions cfg_sample_install_behind_accepted.
+
+(* an accepted history is a run of actions (Abs/CfgRun.v): its own actions
+   ([hist_actions h] = concat (map fst h)) plus an AFlush for every implicit catch-up flush *)
+Theorem cfg_run_hist_as_run : forall V0 h s,
+  run_hist V0 h = HOk s ->
+  exists acts, run V0 true acts init = Some s /\
+    forall x, client_count x acts = client_count x (hist_actions h).
+Proof. exact run_hist_as_run. Qed.
+Print Assumptions cfg_run_hist_as_run.
+
+(* C07 on observations: a client payload x <> 0 accepted at most once in the history occurs
+   at most once in an observed log (n = m) and at one position and term in all observed logs *)
+Theorem cfg_observed_client_entry_one_position : forall V0, NoDup V0 ->
+  forall h acts os s x n o m o' i j t t',
+  run_hist V0 (h ++ [(acts, os)]) = HOk s -> x <> 0 ->
+  (client_count x (hist_actions (h ++ [(acts, os)])) <= 1)%nat ->
+  In (n, o) os -> In (m, o') os ->
+  nth_error (o_log o) i = Some (t, PData x) ->
+  nth_error (o_log o') j = Some (t', PData x) -> i = j /\ t = t'.
+Proof. exact observed_client_entry_one_position. Qed.
+Print Assumptions cfg_observed_client_entry_one_position.
+
+Theorem cfg_observed_client_entry_never_submitted : forall V0, NoDup V0 ->
+  forall h acts os s x n o i t,
+  run_hist V0 (h ++ [(acts, os)]) = HOk s -> x <> 0 ->
+  client_count x (hist_actions (h ++ [(acts, os)])) = 0%nat ->
+  In (n, o) os -> nth_error (o_log o) i <> Some (t, PData x).
+Proof. exact observed_client_entry_never_submitted. Qed.
+Print Assumptions cfg_observed_client_entry_never_submitted.
